@@ -1,6 +1,60 @@
 import Infretis.Model.Proto
-open Infretis.Proto
+import Infretis.Model.Lattice
+open Infretis Infretis.Proto Infretis.Lattice
 
-def handle (_toks : List String) : String := "bad-op"
+/-- parse `cnt` rows of `2 + 2*n` tokens: len max f_0 … f_{n-1} w_0 … w_{n-1} -/
+def takeRows (n : Nat) : Nat → List String → Option (List Row × List String)
+  | 0, rest => some ([], rest)
+  | cnt + 1, l :: m :: rest =>
+    match parseNat? l, parseRat? m, (rest.take n).mapM parseRat?, ((rest.drop n).take n).mapM parseRat? with
+    | some l, some m, some f, some w =>
+      if f.length = n ∧ w.length = n then
+        match takeRows n cnt (rest.drop (2 * n)) with
+        | some (rows, rest') => some ({ len := l, maxOp := m, frac := f, w := w } :: rows, rest')
+        | none => none
+      else none
+    | _, _, _, _ => none
+  | _ + 1, _ => none
+
+def showEst (o : Option Rat) : String :=
+  match o with
+  | some q => showRat q
+  | none => "none"
+
+/-- `num den estimate` for every column k = 1 … n-1 -/
+def showCols (n : Nat) (rows : List Row) : String :=
+  " ".intercalate ((List.range (n - 1)).map (fun i =>
+    let k := i + 1
+    s!"{showRat (num k rows)} {showRat (den k rows)} {showEst (estimate k rows)}"))
+
+def handle (toks : List String) : String :=
+  match toks with
+  -- estimate n cnt row*            the estimator on data rows, all columns
+  | "estimate" :: n :: cnt :: rest =>
+    match parseNat? n, parseNat? cnt with
+    | some n, some cnt =>
+      match takeRows n cnt rest with
+      | some (rows, []) => showCols n rows
+      | _ => "bad-op"
+    | _, _ => "bad-op"
+  -- hit k                          the closed form (k+1)/(k+2)
+  | ["hit", k] =>
+    match parseNat? k with
+    | some k => showRat (hit k)
+    | none => "bad-op"
+  -- lam k                          interface position
+  | ["lam", k] =>
+    match parseNat? k with
+    | some k => showRat (lam k)
+    | none => "bad-op"
+  -- acc v nOld nNew                acceptance probability of the length rule (v = stated | asis)
+  | ["acc", v, a, b] =>
+    match parseNat? a, parseNat? b with
+    | some a, some b =>
+      if v = "stated" then showRat (accProb .stated a b)
+      else if v = "asis" then showRat (accProb .asIs a b)
+      else "bad-op"
+    | _, _ => "bad-op"
+  | _ => "bad-op"
 
 def main : IO Unit := mainWith handle
